@@ -447,3 +447,87 @@ mod verif_c06e {
     }
 }
 //@end
+
+// ------------------------------------------------------------------ RoundedRectangle (styled row)
+//@append src/primitives/rounded_rectangle/points.rs
+#[cfg(kani)]
+impl Scanlines {
+    pub(in crate::primitives) fn verif_set_row(&mut self, y: i32) {
+        self.rounded_rectangle.rows.start = y;
+    }
+}
+//@end
+//@append src/primitives/rounded_rectangle/styled.rs
+#[cfg(kani)]
+#[allow(missing_docs, trivial_casts, trivial_numeric_casts, unused_qualifications, dead_code, unused)]
+mod verif_c06rr {
+    use super::*;
+    use crate::{
+        geometry::{Dimensions, Size},
+        pixelcolor::Gray8,
+        primitives::{ContainsPoint, Primitive, StrokeAlignment, PrimitiveStyleBuilder},
+        verif_probe::sp,
+    };
+
+    /// Styled row contract of the real rounded_rectangle StyledScanlines::next from an arbitrary row: the
+    /// fill range is exactly the columns fill_area.contains() accepts (none, if the fill area has no pixel
+    /// in that row), stroke_left/stroke_right exactly those of stroke_area minus fill_area.
+    fn styled_row(rr: RoundedRectangle, sw: u32, al: StrokeAlignment, reach: i64) {
+        let style = PrimitiveStyleBuilder::<Gray8>::new().stroke_width(sw).stroke_alignment(al).build();
+        let (fa, sa) = (style.fill_area(&rr), style.stroke_area(&rr));
+        let mut s = StyledScanlines::new(&sa, &fa);
+        let bb = sa.bounding_box();
+        let y: i32 = kani::any();
+        kani::assume(sp::top(&bb) <= y as i64 && (y as i64) < sp::bottom(&bb));
+        s.scanlines.verif_set_row(y);
+        let r = s.next();
+        let qx: i32 = kani::any();
+        kani::assume((qx as i64 - rr.rectangle.top_left.x as i64).abs() <= reach);
+        let q = Point::new(qx, y);
+        match r {
+            Some(sl) => {
+                let stroke = sl.stroke_left().x.contains(&qx) || sl.stroke_right().x.contains(&qx);
+                let fill = sl.fill().x.contains(&qx);
+                assert!(sl.fill().y == y && sl.stroke_left().y == y && sl.stroke_right().y == y);
+                assert!(fill == fa.contains(q));
+                assert!((stroke || fill) == sa.contains(q));
+                assert!(!(stroke && fill));
+            }
+            None => assert!(!sa.contains(q)),
+        }
+        kani::cover!(fa.contains(q));
+        kani::cover!(sa.contains(q) && !fa.contains(q));
+        kani::cover!(sa.contains(q) && fa.rectangle.size.width == 0 && fa.rectangle.size.height > 0);
+    }
+
+    /// Square corners, every stroke width up to 3, Inside alignment: includes fill areas that collapse in
+    /// width only.
+    //@harness prop=C06 kind=bounded tier=quick class=P bound="rounded rectangle w <= 2, h <= 7 at (0,0) with zero corner radii, Inside stroke width <= 3; any row, probe column within +-4" timeout=900 kani="--no-assertion-reach-checks" fns=src/primitives/rounded_rectangle/styled.rs::StyledScanlines::new;src/primitives/rounded_rectangle/styled.rs::StyledScanlines::next
+    #[kani::proof]
+    #[kani::unwind(5)]
+    #[kani::stub(crate::primitives::ellipse::EllipseContains::contains, crate::primitives::ellipse::verif_ell::contains_by_contract)]
+    #[kani::stub(crate::primitives::rounded_rectangle::CornerRadii::confine, crate::primitives::rounded_rectangle::corner_radii::verif_cr::confine_by_contract)]
+    fn c06_rounded_rect_styled_row_square() {
+        let bits = |m: u8| (kani::any::<u8>() & m) as u32;
+        let w = bits(3);
+        kani::assume(w <= 2);
+        let rr = RoundedRectangle::with_equal_corners(Rectangle::new(Point::new(0, 0), Size::new(w, bits(7))), Size::zero());
+        styled_row(rr, bits(3), StrokeAlignment::Inside, 4);
+    }
+
+    /// Round corners that fit, narrow shapes with tall corner ellipses included.
+    //@harness prop=C06 kind=bounded tier=thorough class=P bound="rounded rectangle w <= 3, h <= 7 at (0,0), equal corner radii rx <= 1, ry <= 3 that fit, stroke width <= 1, three alignments; any row, probe column within +-8" timeout=900 kani="--no-assertion-reach-checks" fns=src/primitives/rounded_rectangle/styled.rs::StyledScanlines::new;src/primitives/rounded_rectangle/styled.rs::StyledScanlines::next
+    #[kani::proof]
+    #[kani::unwind(8)]
+    #[kani::stub(crate::primitives::ellipse::EllipseContains::contains, crate::primitives::ellipse::verif_ell::contains_by_contract)]
+    #[kani::stub(crate::primitives::rounded_rectangle::CornerRadii::confine, crate::primitives::rounded_rectangle::corner_radii::verif_cr::confine_by_contract)]
+    fn c06_rounded_rect_styled_row_round() {
+        let bits = |m: u8| (kani::any::<u8>() & m) as u32;
+        let (w, h, rx, ry) = (bits(3), bits(7), bits(1), bits(3));
+        kani::assume(2 * rx <= w && 2 * ry <= h);
+        let rr = RoundedRectangle::with_equal_corners(Rectangle::new(Point::new(0, 0), Size::new(w, h)), Size::new(rx, ry));
+        let al = match kani::any::<u8>() & 3 { 0 => StrokeAlignment::Inside, 1 => StrokeAlignment::Center, _ => StrokeAlignment::Outside };
+        styled_row(rr, bits(1), al, 8);
+    }
+}
+//@end
